@@ -24,7 +24,10 @@ class HTTP(Codec):
 		except ValueError:
 			message = Response()
 			message.parse(line)
-		headers, data = data.split(b'\r\n\r\n', 1)
-		message.headers.parse(headers)
+		if data.startswith(b'\r\n'):  # a message without header fields
+			data = data[2:]
+		else:
+			headers, data = data.split(b'\r\n\r\n', 1)
+			message.headers.parse(headers)
 		message.body.parse(data)
 		return message
